@@ -34,7 +34,8 @@ let report prop what =
   match kf with
   | (fid, _) :: _ ->
       incr knowns;
-      if !knowns <= 200 then Printf.printf "KNOWN prop=%s finding=%s case=%s cmd=%s what=%s\n" prop fid (fst !cur) (snd !cur) what
+      if !knowns <= 2000 then Printf.printf "KNOWN prop=%s finding=%s case=%s cmd=%s what=[classes=%s] %s\n" prop fid (fst !cur) (snd !cur)
+          (String.concat "+" (List.sort compare (List.map fst !classes))) what
   | [] ->
       incr violations;
       if !violations <= 60 then Printf.printf "MONITOR prop=%s case=%s cmd=%s what=%s\n" prop (fst !cur) (snd !cur) what
